@@ -313,13 +313,18 @@ def write_extents(out, size, ext):
 
 
 def apply_effects(state, effects):
-    s = dict(state)
+    """state = (frames dict, set of ids that may or may not still be there)"""
+    s, opt = dict(state[0]), set(state[1])
     for e in effects:
         if "ins" in e:
             s[e["ins"]["id"]] = e["ins"]
+        elif "optdel" in e:
+            if e["optdel"] in s:
+                opt.add(e["optdel"])
         else:
             s.pop(e["del"], None)
-    return s
+            opt.discard(e["del"])
+    return (s, opt)
 
 
 def check_recovered(rec, allowed_states, kill_image, label):
@@ -330,15 +335,17 @@ def check_recovered(rec, allowed_states, kill_image, label):
     if ids_sorted != sorted(ids_sorted):
         probs.append("all-contexts stream not in id order")
     match = None
-    for j, st in enumerate(allowed_states):
-        if st == got:
+    for j, (frames, opt) in enumerate(allowed_states):
+        # frames the collector took without acknowledgement may or may not be there
+        need = {k: v for k, v in frames.items() if k not in opt}
+        if all(got.get(k) == v for k, v in need.items()) and all(k in frames and frames[k] == v for k, v in got.items()):
             match = j
             break
     if match is None:
-        want = allowed_states[0]
+        want = allowed_states[0][0]
         probs.append("recovered frames %s are neither the acknowledged state %s nor that state plus a prefix of the in-flight operation's effects" % (sorted(got), sorted(want)))
         return probs
-    st = allowed_states[match]
+    st = dict(got)
     # the three access paths and head agree (C05 on the recovered store)
     for fid, f in st.items():
         g = rec["gets"].get(fid)
@@ -422,7 +429,7 @@ def run_history(xsmc, hist, tier, work, stats, violations, samples):
                 if ef["ins"]["topic"] == "xs.context":
                     ctxs.add(ef["ins"]["id"])
             else:
-                ids.add(ef["del"])
+                ids.add(ef.get("del") or ef.get("optdel"))
     topics.add("nosuch")
     probe = os.path.join(work, hist, "probe.json")
     json.dump({"ids": sorted(ids), "ctxs": sorted(ctxs), "topics": sorted(topics)}, open(probe, "w"))
@@ -430,7 +437,7 @@ def run_history(xsmc, hist, tier, work, stats, violations, samples):
     # enumerate crash points
     jobs = []   # (label, kind, image_dir, allowed_states)
     fs = FS(root)
-    state = {}
+    state = ({}, set())
     first_ack = acks[0]
     ack_pos = 0
     thorough = tier == "thorough"
